@@ -217,12 +217,20 @@ let decl_mark (a:port list) (ap:z list -> pmeta option) : string =
    wf = wf_app a, full = full_conditions a st (the state the file is saved from), rk = the edges the
    scan_deps model produces for the saved file are acyclic.  Informational field (the harness prints
    cond=-): the plug-in counts them into the evidence's input distribution. *)
+(* every message of the case's history is msg_ok (ReachProofs: what it stores is stored again) *)
+let mops_ok (a:port list) (mops:string) : bool =
+  if mops = "-" then true else
+    List.for_all (fun o ->
+        match split_on '.' o with
+        | [i; _; v] -> msg_ok_b (port_at a (nat_of_int (int_of_string i))) (parse_scalar v)
+        | _ -> false) (split_on ';' mops)
+
 let cond_text (a:port list) (ap:z list -> pmeta option) (st:value list) : string =
   let b x = if x then "1" else "0" in
   let ls = save_lines a st in
   let ms = List.map (fun l -> (l.l_path, l)) ls in
   let rk = (match pushes ap fuel ms with Some ps -> ranked_b ps | None -> false) in
-  Printf.sprintf "wf%s,full%s,rk%s" (b (wf_app_b a)) (b (full_conditions_b a st)) (b rk)
+  Printf.sprintf "wf%s,full%s,rk%s,ds%s" (b (wf_app_b a)) (b (full_conditions_b a st)) (b rk) (b (defaults_stable_b a))
 
 let run_ops (a:port list) (mops:string) (st:value list) : value list =
   if mops = "-" then st else
@@ -289,7 +297,7 @@ let () = each_line (fun line ->
        | None -> print_endline "NOFUEL"
        | Some (r, sb) ->
          Printf.printf "%s%shdr=1 lines=%s ret=%s A=%s B=%s fresh=%s body=%s cls=%s cond=%s\n" (decl_mark a ap) (tree_mark tree a ap sa) (show_lines ls) (z_to_string r)
-           (dump a sa) (dump a sb) (show_lines (save_lines a st0)) (body_text ls) (cls_text ls) (cond_text a ap sa))
+           (dump a sa) (dump a sb) (show_lines (save_lines a st0)) (body_text ls) (cls_text ls) (cond_text a ap sa ^ (if mops_ok a mops then ",mo1" else ",mo0")))
     | "perm" :: tree :: flat :: _ :: groups :: _ :: mops :: _ ->
       let a = parse_app flat in
       let ap = parse_apro_tree tree in
@@ -314,7 +322,7 @@ let () = each_line (fun line ->
                   Printf.sprintf "%s@%s@%s" (z_to_string r) (if names = [] then "-" else String.concat ">" names) shown
                 | _, _ -> "NOFUEL"
               end) (split_on '/' g))) (split_on ';' groups) in
-      Printf.printf "%sn=%d %s cond=%s\n" (decl_mark a ap) n (String.concat ";" gs) (cond_text a ap sa)
+      Printf.printf "%sn=%d %s cond=%s\n" (decl_mark a ap) n (String.concat ";" gs) (cond_text a ap sa ^ (if mops_ok a mops then ",mo1" else ",mo0"))
     | "macro" :: _ :: name :: meta :: _ -> Printf.printf "name=%s meta=%s\n" name meta
     | "rej" :: tree :: flat :: _ :: appname :: _ :: absf :: _ ->
       let a = parse_app flat in
